@@ -57,7 +57,7 @@ def gen_cases(tier, seed):
         o["max_solve_retries"] = [10, 3][k % 2]
         o["adaptive_window"] = [10, 4][(k // 2) % 2]
         o["adaptive_time_step_multiplier"] = [0.25, 0.5][(k // 3) % 2]
-        o["progress_interval"] = [10**9, 7][(k // 2) % 2]
+        o["progress_interval"] = [10**9, 7, "none"][(k // 2) % 3]  # (None is an accepted value: tqdm bar, no log lines)
         Ak = ["uniform", "uniform_float", "ramp", "shifted", "zero", "loop", "osc"][k % 7]
         drive = {"A": S.field_spec(rng, dev, o, Ak, b=0.2) if Ak != "shifted" else {"kind": "shifted", "B": 0.2, "c": [0.3, -0.1]},
                  "currents": S.current_spec(rng, dev, o, ["const", "callable", "decimal"][k % 3] if nt else "none", strength=0.1),
